@@ -804,6 +804,18 @@ impl Exec {
                 if let Err(e) = litep2p::verif::manager::tcp_parse_address(a) {
                     self.viol("C10/remembered-address-not-dialable-by-transport", format!("{a} stored for {p} but the TCP transport rejects it: {e}"));
                 }
+                // an unspecified IP is not a destination: add_known_address must not remember it
+                // (an address the user explicitly dials with dial_address is the user's business:
+                // Linux connects such a socket to the loopback interface)
+                match a.iter().next().filter(|_| add.is_some()) {
+                    Some(Protocol::Ip4(ip)) if ip.is_unspecified() => {
+                        self.viol("C10/remembered-address-not-dialable-by-transport/unspecified-ip", format!("{a} stored for {p}"));
+                    }
+                    Some(Protocol::Ip6(ip)) if ip.is_unspecified() => {
+                        self.viol("C10/remembered-address-not-dialable-by-transport/unspecified-ip", format!("{a} stored for {p}"));
+                    }
+                    _ => {}
+                }
                 let bare = without_p2p(a);
                 if is_own(&bare, &listen) {
                     self.viol("C10/own-listen-address-remembered", format!("{a} stored for {p} but {bare} is one of the node's listen addresses"));
